@@ -62,7 +62,7 @@ def check(tier: str) -> int:
                 "identical nodes) and from every configuration one rewrite away; both endpoints rendered to YAML and identified "
                 "by build_inspection_payload; non-trivial = edges touching a sweep definition or a nested parameter")
     run.assumptions = ["the `collection` field of a sweep has a single admissible value in the library and is not mutated",
-                       "non-equivalent expression mutations: added constant, swapped operands of '-'"]
+                       "non-equivalent expression mutations: added constant, swapped operands of '-', + <-> * at the root and at an inner node"]
     res = tlc.run_tlc("MC_Identity", "Identity.d2.check", coverage=True, timeout=900)
     run.add_tlc(res)
     run.require_tlc_ok(res, "Identity.d2.check")
@@ -75,7 +75,7 @@ def check(tier: str) -> int:
         for k, w, rep in r["viol"]:
             run.violation(k, w, rep)
     need = {"SetProcessor", "SetParam", "SetSubParam", "DropNode", "DupNode", "SwapNodes", "SetSweep_vals", "SetSweep_val1",
-            "SetSweep_mode", "SetSweep_bc", "SetSweep_const", "SetSweep_noncomm", "SetSweep_el"}
+            "SetSweep_mode", "SetSweep_bc", "SetSweep_const", "SetSweep_noncomm", "SetSweep_el", "SetSweep_oproot", "SetSweep_opinner"}
     if not need <= set(acts):
         raise core.MachineryError(f"vacuity: semantic actions never exercised: {sorted(need - set(acts))}")
     run.extra["edges_by_action"] = acts
